@@ -167,8 +167,9 @@ Record world := mkWorld {
   utf8 : bytes -> bool;                   (* bytes.decode('utf-8') succeeds *)
   needs_auth : user -> bool;              (* SSHServer.begin_auth(user) *)
   ak_of : option user -> option (list akentry);
-        (* the authorized keys in force: [None] -> the listener's authorized_client_keys;
-           [Some u] -> what the application installs with set_authorized_keys in begin_auth(u) *)
+        (* a set of authorized keys: [None] -> the CONFIGURED one (the listener's authorized_client_keys /
+           AuthorizedKeysFile; inner None = none configured); [Some u] -> what the application passes to
+           set_authorized_keys during begin_auth(u), when it does so (see [installs]) *)
   pw_check : user -> bytes -> pwres;      (* SSHServer.validate_password *)
   pw_change : user -> bytes -> bytes -> pwres;   (* SSHServer.change_password *)
   kbd_chal : user -> kbdres;              (* SSHServer.get_kbdint_challenge *)
@@ -182,8 +183,14 @@ Record world := mkWorld {
   kbd_cfg : tri;                          (* SSHServer.kbdint_auth_supported() *)
   pk_cb_supported : bool;                 (* SSHServer.public_key_auth_supported() *)
   async_begin : bool;                     (* begin_auth returns an awaitable *)
-  async_pw : bool; async_key : bool; async_ca : bool; async_kbd : bool
+  async_pw : bool; async_key : bool; async_ca : bool; async_kbd : bool;
+  installs : user -> bool                 (* does begin_auth(u) call set_authorized_keys at all?  false = it returns
+                                             without touching the keys (no key file for u, an ignored OSError ...) *)
 }.
+
+(* which key set is in force after reload_config + begin_auth(u): reload_config puts the configured set
+   back, then the application may replace it *)
+Definition key_src (w : world) (u : user) : option user := if installs w u then Some u else None.
 
 Definition mem_user (u : user) (l : list user) : bool := existsb (zlist_eqb u) l.
 
@@ -385,7 +392,7 @@ Record st := mkSt {
   auth : option authobj;
   next_aid : Z; next_fid : Z;
   conts : list (option Z * kont);
-  ak_user : option user;      (* whose authorized keys are installed (self._authorized_client_keys) *)
+  ak_user : option user;      (* self._authorized_client_keys: None = the configured set, Some u = installed in begin_auth(u) *)
   key_opts : kopts;           (* self._key_options *)
   cert_opts : option copts;   (* self._cert_options *)
   paused : bool;              (* repaired variant: _recv_handler is blocked by an async packet handler *)
@@ -553,10 +560,12 @@ Definition run_kont (w : world) (sid : bytes) (fixed : bool) (k : kont) (s : st)
       if ba then block (KFinReloaded mk full body) s                    (* reload_config: always an executor hop *)
       else fin_done fixed (lookup w mk full body s)
   | KFinReloaded mk full body =>
-      (* reload_config re-installs the listener's keys; begin_auth(self._username) is called with the name as it
-         is NOW; an honest application installs that user's keys before anything else *)
+      (* reload_config puts the CONFIGURED keys back (self._authorized_client_keys =
+         options.authorized_client_keys, None when none are configured): nothing installed for an earlier
+         user survives.  begin_auth(self._username) is called with the name as it is NOW; the application
+         may install that user's keys (before anything else) or leave the keys alone *)
       let asked := username s in
-      let s1 := set_begun (asked :: begun s) (set_ak_user (Some asked) s) in
+      let s1 := set_begun (asked :: begun s) (set_ak_user (key_src w asked) s) in
       if async_begin w then block (KFinBegun asked mk full body) s1
       else run_begun w fixed asked mk full body s1
   | KFinBegun asked mk full body => run_begun w fixed asked mk full body s
@@ -609,24 +618,37 @@ Definition payloads (evs : list ev) : list bytes :=
   flat_map (fun e => match e with Deliver p => [p] | _ => [] end) evs.
 
 (* ---- restrictions enforced after authentication -------------------------------------------------- *)
+(* all of them are functions of (_key_options, _cert_options) *)
 (* channel.py _start_session: certificate force-command first, then authorized_keys command= *)
-Definition forced_command (s : st) : option bytes :=
-  match (match cert_opts s with Some c => co_force c | None => None end) with
+Definition forced_under (ko : kopts) (co : option copts) : option bytes :=
+  match (match co with Some c => co_force c | None => None end) with
   | Some x => Some x
-  | None => ko_command (key_opts s)
+  | None => ko_command ko
   end.
+(* what a session channel can be started with, and what the session object is told (channel.py
+   _process_shell_request / _process_exec_request / _process_subsystem_request -> _start_session ->
+   SSHServerSession.shell_requested / exec_requested / subsystem_requested): a forced command replaces
+   WHATEVER was requested - shell, command, or subsystem (sftp included) *)
+Inductive start_req := SShell | SExec (c : bytes) | SSubsys (n : bytes).
+Definition start_under (ko : kopts) (co : option copts) (r : start_req) : start_req :=
+  match forced_under ko co with Some c => SExec c | None => r end.
 (* channel.py _process_pty_req_request (with allow_pty = True) *)
-Definition pty_allowed (s : st) : bool :=
-  negb (ko_no_pty (key_opts s)) && match cert_opts s with Some c => co_pty c | None => true end.
+Definition pty_under (ko : kopts) (co : option copts) : bool :=
+  negb (ko_no_pty ko) && match co with Some c => co_pty c | None => true end.
 (* connection.py _process_direct_tcpip_open *)
 Definition po_eqb (a b : bytes * option Z) : bool :=
   zlist_eqb (fst a) (fst b) && option_eqb Z.eqb (snd a) (snd b).
-Definition fwd_allowed (s : st) (host : bytes) (port : Z) : bool :=
-  negb (ko_no_fwd (key_opts s)) && match cert_opts s with Some c => co_fwd c | None => true end &&
-  match ko_permitopen (key_opts s) with
+Definition fwd_under (ko : kopts) (co : option copts) (host : bytes) (port : Z) : bool :=
+  negb (ko_no_fwd ko) && match co with Some c => co_fwd c | None => true end &&
+  match ko_permitopen ko with
   | [] => true
   | l => existsb (po_eqb (host, Some port)) l || existsb (po_eqb (host, None)) l
   end.
+
+Definition forced_command (s : st) : option bytes := forced_under (key_opts s) (cert_opts s).
+Definition start_session (s : st) (r : start_req) : start_req := start_under (key_opts s) (cert_opts s) r.
+Definition pty_allowed (s : st) : bool := pty_under (key_opts s) (cert_opts s).
+Definition fwd_allowed (s : st) (host : bytes) (port : Z) : bool := fwd_under (key_opts s) (cert_opts s) host port.
 
 (* ---- specification: when is user U entitled to be authenticated, given the packets received ------- *)
 Definition opt_user_is (o : option user) (u : user) : bool :=
@@ -656,8 +678,9 @@ Definition restr_of (e : effect) : kopts * option copts :=
    it.  [D] = every packet delivered on this connection.
      - p names U (after utf-8 + saslprep), service ssh-connection, and
        * the application says U needs no authentication (begin_auth(U) = False), or
-       * the method is supported and evaluating THIS request for U - against the authorized keys the
-         application installs for U (or the listener's keys for the initial, empty user name) -
+       * the method is supported and evaluating THIS request for U - against the authorized keys that are
+         FOR U: those the application installs during begin_auth(U), or the configured ones when it
+         installs nothing for U (and for the initial, empty user name); never another user's -
          succeeds: application accepted the password; or key / certificate authorized and the signature
          verifies over string(session id) ++ the request bytes up to and including the key blob; or
          the keyboard-interactive challenge callback answered True, or
@@ -676,7 +699,7 @@ Definition grants_via (w : world) (sid : bytes) (U : user) (D : list bytes) (p :
             (if mkind_eqb k MKbd && existsb (kbd_resp_grants w U) D then [(ko_empty, None)] else [])
           else [] in
         (if needs_auth w U then [] else [(ko_empty, None)]) ++
-        direct (Some U) ++ (if is_nil U then direct None else [])
+        direct (key_src w U) ++ (if is_nil U then direct None else [])
       else []
   | None => []
   end.
